@@ -118,6 +118,7 @@ def run(tier, seed):
         runs.append((c, {"fmt": "dkvp", "env": {"MLR_VERIF_PERTURB": str(rnd.randrange(1, 10**9))}}))
     cases = [pipeline.render(c, mlr, v) for c, v in runs]
     res = vlib.run_cases(cases)
+    vlib.confirm_timeouts(cases, res)
     obs = [pipeline.observe(c, k, r) for (c, v), k, r in zip(runs, cases, res)]
     bad, nobs = pipeline.validate_obs(obs)
     states += nobs
@@ -310,6 +311,7 @@ def delay_sweep(mlr, cfgs, V, rnd, usec=3000, check=None):
             runs.append((c, {"fmt": "dkvp", "env": {"MLR_VERIF_DELAY": "%s:%s:%d" % (role, site, usec)}}))
     cases = [pipeline.render(c, mlr, v) for c, v in runs]
     res = vlib.run_cases(cases)
+    vlib.confirm_timeouts(cases, res)
     obs = [pipeline.observe(c, k, r) for (c, v), k, r in zip(runs, cases, res)]
     bad, nobs = pipeline.validate_obs(obs)
     for idx, why in bad:
